@@ -10,6 +10,7 @@ import ElfiVerif.Drive.C19
 import ElfiVerif.Drive.C14
 import ElfiVerif.Drive.C03
 import ElfiVerif.Drive.C02
+import ElfiVerif.Drive.C16
 
 /-!
 Line-protocol driver: one JSON request per line on stdin (`{"op": "<Cxx.name>", …}`), one JSON answer
@@ -24,7 +25,8 @@ def allHandlers : List (String × H) :=
   ElfiVerif.Drive.C06.handlers ++ ElfiVerif.Drive.C04.handlers ++
   ElfiVerif.Drive.C18.handlers ++ ElfiVerif.Drive.C09.handlers ++
   ElfiVerif.Drive.C19.handlers ++ ElfiVerif.Drive.C14.handlers ++
-  ElfiVerif.Drive.C03.handlers ++ ElfiVerif.Drive.C02.handlers
+  ElfiVerif.Drive.C03.handlers ++ ElfiVerif.Drive.C02.handlers ++
+  ElfiVerif.Drive.C16.handlers
 
 def handleLine (line : String) : String :=
   match Json.parse line with
